@@ -92,6 +92,15 @@ func (u *Unit) loopEnter(st *State, lp *Loop) {
 		tag = relName(st.frame.fn) + "." + tag
 	}
 	first := lp.header.Instrs[0]
+	var ghosts []*LoopGhost
+	if fs != nil {
+		ghosts = fs.LoopGhost[lp.index]
+	}
+	for _, g := range ghosts {
+		env := u.newEnv(st)
+		iv := u.evalSE(env, g.Init)
+		st.cnt["gv!"+g.Name] = u.lower(st, iv.V, iv.Typ)
+	}
 	for _, c := range inv {
 		env := u.newEnv(st)
 		env.pre = st.snapshot()
@@ -240,6 +249,9 @@ func (u *Unit) loopEnter(st *State, lp *Loop) {
 			}
 		}
 	}
+	for _, g := range ghosts {
+		st.cnt["gv!"+g.Name] = u.fresh("loop.ghost."+g.Name, g.Sort)
+	}
 	for _, c := range inv {
 		env := u.newEnv(st)
 		env.pre = pre
@@ -273,11 +285,34 @@ func (u *Unit) loopBackEdge(st *State, lp *Loop) {
 	env := u.newEnv(st)
 	env.head = lc.head
 	env.pre = lc.pre
+	// specification-only loop variables take their new values (simultaneously)
+	if fs != nil {
+		newVals := map[string]T{}
+		for _, g := range fs.LoopGhost[lp.index] {
+			if g.Step == nil {
+				continue
+			}
+			sv := u.evalSE(env, g.Step)
+			newVals["gv!"+g.Name] = u.bind(st, u.lower(st, sv.V, sv.Typ), "gv."+g.Name)
+		}
+		for k, v := range newVals {
+			st.cnt[k] = v
+		}
+		if len(newVals) > 0 {
+			env = u.newEnv(st)
+			env.head = lc.head
+			env.pre = lc.pre
+		}
+	}
+	// per-iteration postconditions first: once proved they are facts about this
+	// iteration that the preservation proofs of the invariants may use
+	for _, c := range iter {
+		g := u.evalBool(env, c.Expr)
+		u.addOblig(st, tag+".iter."+labelOr(c, "iter"), c.Text, clauseProps(c, fs), g, first, "per-iteration postcondition: "+c.Text)
+		st.assume(g)
+	}
 	for _, c := range inv {
 		u.addOblig(st, tag+".inv."+labelOr(c, "inv")+".preserve", c.Text, clauseProps(c, fs), u.evalBool(env, c.Expr), first, "loop invariant preserved by the body: "+c.Text)
-	}
-	for _, c := range iter {
-		u.addOblig(st, tag+".iter."+labelOr(c, "iter"), c.Text, clauseProps(c, fs), u.evalBool(env, c.Expr), first, "per-iteration postcondition: "+c.Text)
 	}
 	if fs != nil {
 		for _, name := range fs.LoopOwned[lp.index] {
